@@ -35,6 +35,13 @@ var gridK = map[string]map[string]int{
 	"follow-schema": {"quick": 1, "thorough": 2},
 }
 
+// max selection nodes of the disabled-mode query shapes, and wrapper depth of the grid
+var shapeN = map[string]map[string]int{
+	"single-file":   {"quick": 4, "thorough": 4},
+	"follow-schema": {"quick": 3, "thorough": 4},
+}
+var wrapDepth = map[string]int{"quick": 3, "thorough": 4}
+
 var layouts = []struct{ name, yml string }{
 	{"single-file", "schema:\n  - schema.graphql\nexec:\n  filename: graph/generated.go\n  package: graph\nmodel:\n  filename: graph/models_gen.go\n  package: graph\n"},
 	{"follow-schema", "schema:\n  - schema.graphql\nexec:\n  layout: follow-schema\n  dir: graph\n  package: graph\nmodel:\n  filename: graph/models_gen.go\n  package: graph\n"},
@@ -169,16 +176,21 @@ func main() {
 	exhaustive := true
 	for i, l := range layouts {
 		remaining := budget - time.Since(start)
-		// the first layout carries the large grid: it may use up to 70% of what is left
+		// the first layout carries the large grid; keep a reserve for the second one
 		share := int(remaining.Seconds())
 		if i == 0 {
-			share = share * 7 / 10
+			if c.Tier == "thorough" {
+				share = share * 7 / 10
+			} else {
+				share -= 20
+			}
 		}
 		if share < 5 {
 			share = 5
 		}
 		resFile := filepath.Join(probe.ScratchRoot(), "result-"+l.name+".json")
-		cmd := exec.Command(bins[i], "-tier", c.Tier, "-layout", l.name, "-out", resFile, "-budget", fmt.Sprint(share), "-grid-k", fmt.Sprint(gridK[l.name][c.Tier]))
+		cmd := exec.Command(bins[i], "-tier", c.Tier, "-layout", l.name, "-out", resFile, "-budget", fmt.Sprint(share), "-grid-k", fmt.Sprint(gridK[l.name][c.Tier]),
+			"-shape-n", fmt.Sprint(shapeN[l.name][c.Tier]), "-wrap-depth", fmt.Sprint(wrapDepth[c.Tier]))
 		cmd.Stdout, cmd.Stderr = os.Stderr, os.Stderr
 		if err := cmd.Run(); err != nil {
 			probe.Cleanup()
@@ -232,8 +244,10 @@ func main() {
 		if bounds == nil {
 			bounds = o.Bounds
 			bounds["grid_max_nondefault_slots"] = map[string]any{}
+			bounds["shape_max_nodes"] = map[string]any{}
 		}
 		bounds["grid_max_nondefault_slots"].(map[string]any)[o.Layout] = gridK[o.Layout][c.Tier]
+		bounds["shape_max_nodes"].(map[string]any)[o.Layout] = shapeN[o.Layout][c.Tier]
 		for _, s := range o.Samples {
 			c.Sample(s)
 		}
